@@ -284,33 +284,58 @@ Record result := mkR {
 Definition DATA_PREFIX : string := "data".
 Definition MANIFESTS_PREFIX : string := "metadata/manifests".
 
-Definition gc_run_from (tp : string) (grace now timeout : Z) (o : oracle) (snaps : list string) (g0 : gst) : result :=
+(* reachability: every retained snapshot's list -> manifests -> data files; any exception aborts *)
+Inductive reach_res := RAbort (ph : phase) (rl rm : list key) | ROk (rl rm rd : list key).
+
+Definition reach (tp : string) (o : oracle) (snaps : list string) (g : gst) : reach_res * gst :=
   let rl := norm_set tp snaps in
-  match read_all WList o g0 rl with
-  | (None, g1) => mkR (Aborted PhLists) [] rl [] [] [] g1
+  match read_all WList o g rl with
+  | (None, g1) => (RAbort PhLists rl [], g1)
   | (Some mpaths, g1) =>
       let rm := norm_set tp mpaths in
       match read_all WManifest o g1 rm with
-      | (None, g2) => mkR (Aborted PhManifests) [] rl rm [] [] g2
-      | (Some entries, g2) =>
-          let rd := map (normalize_path tp) entries in
-          match load_protection tp timeout now o g2 with
-          | (None, g3) => mkR (Aborted PhMarkers) [] rl rm rd [] g3
-          | (Some prot, g3) =>
-              match sweep tp grace now (rd ++ prot)%list o g3 DATA_PREFIX [] with
-              | (true, d1, g4) => mkR (Aborted PhSweepData) d1 rl rm rd prot g4
-              | (false, d1, g4) =>
-                  match sweep tp grace now ((rm ++ rl) ++ prot)%list o g4 MANIFESTS_PREFIX d1 with
-                  | (true, d2, g5) => mkR (Aborted PhSweepManifests) d2 rl rm rd prot g5
-                  | (false, d2, g5) => mkR Done d2 rl rm rd prot g5
-                  end
-              end
-          end
+      | (None, g2) => (RAbort PhManifests rl rm, g2)
+      | (Some entries, g2) => (ROk rl rm (map (normalize_path tp) entries), g2)
       end
   end.
 
+(* the two sweeps: _gc_prefix("data", reachable_data | protected), _gc_prefix("metadata/manifests", manifests | lists | protected) *)
+Definition sweeps (tp : string) (grace now : Z) (o : oracle) (rl rm rd prot : list key) (g : gst) : result :=
+  match sweep tp grace now (rd ++ prot)%list o g DATA_PREFIX [] with
+  | (true, d1, g4) => mkR (Aborted PhSweepData) d1 rl rm rd prot g4
+  | (false, d1, g4) =>
+      match sweep tp grace now ((rm ++ rl) ++ prot)%list o g4 MANIFESTS_PREFIX d1 with
+      | (true, d2, g5) => mkR (Aborted PhSweepManifests) d2 rl rm rd prot g5
+      | (false, d2, g5) => mkR Done d2 rl rm rd prot g5
+      end
+  end.
+
+(* collect().  `markers_first` is the order of the two preparatory phases IN THE SOURCE (regenerated:
+   GenNorm.MARKERS_FIRST): false = reachability, then in-flight protection (the code as it stands);
+   true = in-flight protection before the metadata is read (the repair DESIGN.md plans for C06).
+   Every theorem is proved for both orders. *)
+Definition gc_run_from (markers_first : bool) (tp : string) (grace now timeout : Z) (o : oracle) (snaps : list string) (g0 : gst) : result :=
+  if markers_first then
+    match load_protection tp timeout now o g0 with
+    | (None, g1) => mkR (Aborted PhMarkers) [] [] [] [] [] g1
+    | (Some prot, g1) =>
+        match reach tp o snaps g1 with
+        | (RAbort ph rl rm, g2) => mkR (Aborted ph) [] rl rm [] prot g2
+        | (ROk rl rm rd, g2) => sweeps tp grace now o rl rm rd prot g2
+        end
+    end
+  else
+    match reach tp o snaps g0 with
+    | (RAbort ph rl rm, g1) => mkR (Aborted ph) [] rl rm [] [] g1
+    | (ROk rl rm rd, g1) =>
+        match load_protection tp timeout now o g1 with
+        | (None, g2) => mkR (Aborted PhMarkers) [] rl rm rd [] g2
+        | (Some prot, g2) => sweeps tp grace now o rl rm rd prot g2
+        end
+    end.
+
 Definition gc_run (tp : string) (grace now timeout : Z) (o : oracle) (snaps : list string) (st : store) : result :=
-  gc_run_from tp grace now timeout o snaps (mkG 0 st []).
+  gc_run_from MARKERS_FIRST tp grace now timeout o snaps (mkG 0 st []).
 
 (* ---------------------------------------------------------------- rendering for the correspondence harness *)
 Definition oracle_of (l : list (nat * fault)) : oracle :=
